@@ -1,9 +1,9 @@
 SPECIFICATION Spec
-CONSTANTS NT = 3
-          N1 = 1
+CONSTANTS NT = 2
+          N1 = 4
           N2 = 2
-          PAIR = FALSE
-          N3 = 2
+          PAIR = TRUE
+          N3 = 0
 INVARIANT Invisible
 INVARIANT SourceOrder
 INVARIANT ReplaceUnlessMultifile
